@@ -508,6 +508,11 @@ inline RunSpec decode_run(vf::Tape& t, const Palette& pal, int family_prime, vf:
     rs.field.hi = ranges[x % 8][1];
   } else if (kind == 2) {
     rs.field.p = medium[x % 4];
+    if (x >= 16) {  // any prime below 1800
+      int q = 3 + 7 * int(x);
+      while (!is_prime(q)) --q;
+      rs.field.p = q;
+    }
   } else {
     rs.field.p = large[x % 2];
     ctx.hit("field:large-prime");
